@@ -79,6 +79,14 @@ class CallMixin(ExprMixin):
             return
         if isinstance(f, ast.Name):
             v = st.locals[f.id]
+            if isinstance(v, Val) and v.ty.kind == "method":
+                # a callback whose target is fixed by the declared type Method[Class.meth]: an ordinary modular call on its receiver
+                cname, mname = v.ty.name.rsplit(".", 1)
+                tc = S.lookup_method(cname, mname)
+                if tc is None:
+                    raise UnsupportedError(f"no contract for the callback target {v.ty.name} (line {node.lineno})")
+                yield from self.call_by_key(tc, Val(T.Ref(cname), v.parts), node, st)
+                return
             raise UnsupportedError(f"call of local value {f.id} at line {node.lineno}")
         raise UnsupportedError(f"call form at line {node.lineno}")
 
@@ -107,7 +115,8 @@ class CallMixin(ExprMixin):
         if isinstance(recv, GlobalRef):
             if recv.kind == "class":
                 key = f"{recv.name}.{attr}"
-                c = S.lookup_method(recv.name, attr)
+                alias = self.contract.call_alias.get(key)
+                c = S.CONTRACTS.get(alias) if alias else S.lookup_method(recv.name, attr)
                 if c is None:
                     raise UnsupportedError(f"no contract for {key} (line {node.lineno})")
                 yield from self.call_by_key(c, "static", node, st)
@@ -115,7 +124,7 @@ class CallMixin(ExprMixin):
             if recv.kind == "enum":
                 raise UnsupportedError(f"call on enum {recv.name}.{attr}")
             dotted = f"{recv.name}.{attr}"
-            c = S.CONTRACTS.get(dotted)
+            c = S.CONTRACTS.get(self.contract.call_alias.get(dotted, dotted))
             if dotted in ("copy.copy", "copy.deepcopy") and len(node.args) == 1 and not node.keywords:
                 # containers are values here: a copy is the value itself, and it is fresh
                 for r, s in self.ev_value(node.args[0], st):
@@ -188,18 +197,32 @@ class CallMixin(ExprMixin):
                     continue
                 pos = vals[:len(rest)]
                 kw = {k.arg: v for k, v in zip(node.keywords, vals[len(rest):])}
-                g = lw["ghost"]
-                held = s.ghost_get(g)
-                self.oblige("pre", s, z3.Not(held.t), f"lock of {c.key} is not already held by this process (a nested acquisition of the SoftFileLock times out)",
-                            node.lineno, extra={"callee": c.key, "clause": "not ghost." + g})
+                if lw.get("ghost_set"):
+                    # one lock per file: ghost set of the lock files this process holds, keyed by an expression over the wrapper's receiver
+                    g = lw["ghost_set"]
+                    key = SpecEval(self, s, s, {"self": recv} if isinstance(recv, Val) else {}).ev(S.parse_clause(lw["key"]))
+                    heldset = s.ghost_get(g)
+                    key = O.coerce(key, heldset.ty.elem)
+                    is_held = z3.Select(heldset.t, key.t)
+                    acquire = lambda st_: st_.ghost_set(g, Val(heldset.ty, [z3.Store(st_.ghost_get(g).t, key.t, z3.BoolVal(True))]))
+                    release = lambda st_: st_.ghost_set(g, Val(heldset.ty, [z3.Store(st_.ghost_get(g).t, key.t, z3.BoolVal(False))]))
+                    clause = f"{lw['key']} not in ghost.{g}"
+                else:
+                    g = lw["ghost"]
+                    is_held = s.ghost_get(g).t
+                    acquire = lambda st_: st_.ghost_set(g, V.mk_bool(True))
+                    release = lambda st_: st_.ghost_set(g, V.mk_bool(False))
+                    clause = "not ghost." + g
+                self.oblige("pre", s, z3.Not(is_held), f"lock of {c.key} is not already held by this process (a nested acquisition of the SoftFileLock times out)",
+                            node.lineno, extra={"callee": c.key, "clause": clause})
                 # lock acquisition may time out: nothing happened
                 if "Timeout" in c.raises or lw.get("timeout", True):
                     t = s.clone()
                     t.trace.append(f"L{node.lineno}:lock Timeout")
                     yield Raise("Timeout", node.lineno, f"lock acquisition in {c.key} timed out"), t
-                s.ghost_set(g, V.mk_bool(True))
+                acquire(s)
                 for r, s2 in self.call_contract(tc, trecv, pos, kw, s, node):
-                    s2.ghost_set(g, V.mk_bool(False))
+                    release(s2)
                     if isinstance(r, Raise) and lw.get("marker"):
                         s2.ghost_set(lw["marker"], V.mk_bool(True))
                     yield r, s2
@@ -371,9 +394,14 @@ class CallMixin(ExprMixin):
             if exc == "AnyException":
                 continue         # only taken as the anonymous outcome below, in crash-aware callers
             se = post.clone()
+            if spec.get("frame") is True:
+                # the callee is proved (or assumed) to change nothing when it raises this: heap, ghost state and allocation are those before the call
+                se.heap = pre.heap.clone()
+                se.ghost = dict(pre.ghost)
+                se.alloc = dict(pre.alloc)
             ok = True
             try:
-                ev = SpecEval(self, se, pre, post_env, facts, c.defs, env)
+                ev = SpecEval(self, se, pre, post_env if spec.get("frame") is not True else env, facts, c.defs, env)
                 # `when` speaks about the state before the call
                 conds = [SpecEval(self, pre, pre, env, facts, c.defs, env).clause(t) for t in spec.get("when", [])]
                 ens = [ev.clause(t) for t in spec.get("ensures", [])]
@@ -422,15 +450,33 @@ class CallMixin(ExprMixin):
         self.wf(post, result)
         for name in modified_params:
             self.wf(post, post_env[name])
-        if (c.fresh_result or recv == "new") and isinstance(result, Val) and result.ty.kind == "ref":
-            post.allocate(result.ty.name, result.t)
+        fresh_refs = []
+        if (c.fresh_result or recv == "new") and isinstance(result, Val):
+            if result.ty.kind == "ref":
+                fresh_refs = [result]
+            elif result.ty.kind == "tuple":       # (new object, flag): the object components are newly allocated
+                fresh_refs = [it for it in V.tuple_items(result) if it.ty.kind == "ref"]
+        for fr in fresh_refs:
+            post.allocate(fr.ty.name, fr.t)
             if post.written_alloc is not None:
                 from .state import root_record
-                post.written_alloc.add(root_record(result.ty.name))
+                post.written_alloc.add(root_record(fr.ty.name))
         self.writeback(modified_params, post_env, argkey, arg_nodes, recv_node, post, node)
         if memo_key is not None:
             post.pure_memo[memo_key] = result
-        if not self.feasible(post):
+        alive = self.feasible(post)
+        if not self.discovering and c.ensures != ["False"] and (c.kind == "assumed" or not alive):
+            # vacuity guard: an assumed postcondition that contradicts the caller's state would silently end the path here.
+            # Up to three paths per call site get a cover; the site counts as refuted only if none of them can return.
+            site = (c.key, line)
+            seen = self.callret_seen.setdefault(site, 0)
+            if seen < 3:
+                self.callret_seen[site] = seen + 1
+                from .state import Obligation
+                self.covers.append(Obligation(f"{self.contract.key}/callret/L{line}:{c.key}/{seen + 1}", "callret", self.contract.key, line,
+                                              f"the call of {c.key} at line {line} can return normally (its postcondition is consistent with the caller's state)",
+                                              list(post.pc), None, expect="sat", extra={"site": f"{self.contract.key}@{line}:{c.key}"}))
+        if not alive:
             return
         yield result, post
 
